@@ -1185,3 +1185,79 @@ func RetVal(ret *ssa.Return, i int) ssa.Value {
 	}
 	return v
 }
+
+// DeepDeps is BackwardDeps made interprocedural: results of calls to lava functions with
+// bodies are followed into the callee's returned values, and parameters are followed to
+// the corresponding arguments at every call site of the enclosing function (both to the
+// given depth). Used for provenance rules ("this stored value derives from that getter").
+func (c *Ctx) DeepDeps(v ssa.Value, depth int) (fields map[string]bool, calls map[string]bool) {
+	fields, calls = map[string]bool{}, map[string]bool{}
+	seen := map[ssa.Value]bool{}
+	var walk func(v ssa.Value, d int)
+	walk = func(v ssa.Value, d int) {
+		if v == nil || seen[v] {
+			return
+		}
+		seen[v] = true
+		switch x := v.(type) {
+		case *ssa.FieldAddr:
+			fields[ir.FieldKey(x)] = true
+		case *ssa.Field:
+			fields[ir.FieldKey(x)] = true
+		case *ssa.Call:
+			calls[ir.CalleeName(&x.Call)] = true
+			if d > 0 {
+				if sc := x.Call.StaticCallee(); sc != nil && sc.Blocks != nil {
+					ir.EachInstr(sc, func(in ssa.Instruction) {
+						if r, ok := in.(*ssa.Return); ok {
+							for i := range r.Results {
+								walk(RetVal(r, i), d-1)
+							}
+						}
+					})
+				}
+			}
+		case *ssa.Alloc:
+			if refs := x.Referrers(); refs != nil {
+				for _, r := range *refs {
+					if st, ok := r.(*ssa.Store); ok && st.Addr == x {
+						walk(st.Val, d)
+					}
+				}
+			}
+		case *ssa.Parameter:
+			if d > 0 {
+				fn := x.Parent()
+				idx := -1
+				for i, p := range fn.Params {
+					if p == x {
+						idx = i
+					}
+				}
+				for _, ref := range c.References(fn) {
+					call := ir.CallOf(ref.Instr)
+					if call == nil {
+						continue
+					}
+					args := call.Args
+					ai := idx
+					if call.IsInvoke() {
+						ai = idx - 1 // receiver is call.Value
+					}
+					if ai >= 0 && ai < len(args) {
+						walk(args[ai], d-1)
+					}
+				}
+			}
+		}
+		if in, ok := v.(ssa.Instruction); ok {
+			for _, op := range in.Operands(nil) {
+				if op != nil && *op != nil {
+					walk(*op, d)
+				}
+			}
+		}
+	}
+	walk(v, depth)
+	return
+}
